@@ -10,8 +10,8 @@ from mc.ref import htmldoc as HD, cssdoc as CD
 ID = 'C17'
 
 BOUNDS = {
-    'quick': dict(html_plain=2, html_attrs=2, css_nodes=4, rotations=4),
-    'thorough': dict(html_plain=4, html_attrs=3, css_nodes=5, rotations=8),
+    'quick': dict(html_plain=2, html_attrs=2, css_nodes=4, rotations=9),
+    'thorough': dict(html_plain=4, html_attrs=3, css_nodes=5, rotations=9),
 }
 NSH = 48
 ATTRS = HD.ATTR_SETS + HD.ATTR_SETS_ACTIONS
@@ -19,6 +19,7 @@ ATTRS = HD.ATTR_SETS + HD.ATTR_SETS_ACTIONS
 
 def describe(tier):
     b = BOUNDS[tier]
+    assert b['rotations'] >= len(CD.DECLS_TOKENS), 'every entry of the declaration menu must lead a rotation'
     return dict(
         rule='HTML: all forests with <= %d nodes, and all forests with <= %d nodes in which one element at a time carries one of %d '
              'attribute sets (class token lists, empty values, expressions, valueless); CSS: all forests with <= %d nodes, declaration '
